@@ -57,6 +57,10 @@ def must_may(intervals, axis):
     return must, may
 
 
+def pair_axis(axis):
+    return list(axis[1:-1]) if len(axis) >= 3 else list(axis[:1])
+
+
 def build_spec(case, kind_variant=None):
     axis = AXES[case["axis"]]
     linked = case["linked"]
@@ -64,6 +68,11 @@ def build_spec(case, kind_variant=None):
     ds = [S.dataset("d1", axis, n_model=6, megacomplexes=["m1"])]
     if linked:
         ds.append(S.dataset("d2", axis, n_model=5, megacomplexes=["m2"]))
+    if case.get("pair"):
+        # an unlinked group of two datasets: d0 is declared first, lives on a narrower axis sharing its points with
+        # d1's, and (unless a penalty needs s1) lacks the clp the item targets; d1 is the observed dataset
+        mc0 = ["m1"] if case["kind"].startswith("penalty") else ["m2"]
+        ds.insert(0, S.dataset("d0", pair_axis(axis), n_model=5, megacomplexes=mc0))
     spec = S.base_spec(ds, mcs, seed=case.get("seed", 0))
     spec["groups"]["default"]["link_clp"] = linked
     return spec
@@ -119,7 +128,7 @@ def observe(case):
                 vs.append(V("only-is-not-the-complement-of-zero", zero=sorted(zero_set), only_zeroed=sorted(only_zeroed)))
             # number_of_clps must count exactly the remaining coefficients
             n_labels = 2 + (1 if case["linked"] else 0)
-            want = n_labels * len(axis) - len(zero_set)
+            want = n_labels * len(axis) - len(zero_set) + (2 * len(pair_axis(axis)) if case.get("pair") else 0)
             if res.number_of_clps != want:
                 vs.append(V("number-of-clps-inconsistent-with-zeroed-clps", got=int(res.number_of_clps), want=want))
         return zero_set, vs
@@ -166,34 +175,40 @@ def observe(case):
         spec["penalties"] = [dict(pen, parameter=1.3, weight=0.5)]
         res, warns = optimize_spec(spec)
         p = float(res.optimized_parameters.get("pen.1").value)
-        c = res.data["d1"]["clp"]
-        s1, s2 = c.sel(clp_label="s1").values, c.sel(clp_label="s2").values
         got = [float(x) for g in res.additional_penalty for x in g]
         must, may = must_may(case["intervals"], axis)
         # every admissible index multiset: per interval any set between its must and may; the statement fixes which
         # points are affected, not whether a point lying in two overlapping intervals of a list counts once or
         # twice, so both the union and the per-interval sum are admissible
-        per_interval = []
-        for one in case["intervals"]:
-            m1, m2 = must_may([one], axis)
-            extra = sorted(m2 - m1)
-            per_interval.append([sorted(m1 | set(add)) for r in range(len(extra) + 1) for add in itertools.combinations(extra, r)])
-        admissible = []
-        for combo in itertools.product(*per_interval):
-            multi = sorted(i for A in combo for i in A)
-            admissible.append(multi)
-            admissible.append(sorted(set(multi)))
+
+        def admissible_values(label, ax):
+            c = res.data[label]["clp"]
+            s1, s2 = c.sel(clp_label="s1").values, c.sel(clp_label="s2").values
+            per_interval = []
+            for one in case["intervals"]:
+                m1, m2 = must_may([one], ax)
+                extra = sorted(m2 - m1)
+                per_interval.append([sorted(m1 | set(add)) for r in range(len(extra) + 1) for add in itertools.combinations(extra, r)])
+            out = []
+            for combo in itertools.product(*per_interval):
+                multi = sorted(i for A in combo for i in A)
+                for A in (multi, sorted(set(multi))):
+                    if not A:
+                        val = None  # an empty area: the penalty is skipped for this dataset
+                    elif kind == "penalty_source":
+                        val = abs(sum(s1[i] for i in A) - p * sum(s2)) * 0.5
+                    else:
+                        val = abs(sum(s1) - p * sum(s2[i] for i in A)) * 0.5
+                    out.append((A, val))
+            return out
+
+        per_dataset = [admissible_values("d0", pair_axis(axis))] if case.get("pair") else []
+        per_dataset.append(admissible_values("d1", axis))
         matches = []
-        for A in admissible:
-            if kind == "penalty_source":
-                val = abs(sum(s1[i] for i in A) - p * sum(s2)) * 0.5 if A else None
-            else:
-                val = abs(sum(s1) - p * sum(s2[i] for i in A)) * 0.5 if A else None
-            if val is None:
-                if not got:
-                    matches.append(A)
-            elif len(got) == 1 and abs(got[0] - val) <= 1e-9 * max(1.0, abs(val)):
-                matches.append(A)
+        for combo in itertools.product(*per_dataset):
+            want = [val for _, val in combo if val is not None]
+            if len(want) == len(got) and all(abs(g - w) <= 1e-9 * max(1.0, abs(w)) for g, w in zip(got, want)):
+                matches.append(combo[-1][0])
         if not matches:
             vs.append(V("equal-area-penalty-not-over-an-admissible-index-set", kind=kind, got=got, must=sorted(must),
                         may=sorted(may)))  # fmt: skip
@@ -369,8 +384,18 @@ def run(run: core.Run):
                                       "intervals": [[enc(i1[0]), enc(i1[1])], [enc(i2[0]), enc(i2[1])]]})  # fmt: skip
                     cases.append({"axis": ax, "kind": kind, "linked": linked, "as_list": True, "seed": run.seed,
                                   "intervals": [[enc(axis[0]), enc(axis[0])]]})  # fmt: skip
+    # unlinked pair of datasets on different axes (d0 narrower, declared first): every ordered pair of bounds
+    pair_cases = []
+    for ax in ["uniform5", "nonuniform5"] if quick else ["uniform5", "nonuniform5", "uniform3", "two"]:
+        for kind in ("zero_only", "relation", "penalty_source", "penalty_target"):
+            B = bound_alphabet(AXES[ax])
+            if quick:
+                B = B[::2] if kind.startswith("penalty") else B
+            for lo, hi in itertools.product(B, B):
+                pair_cases.append({"axis": ax, "kind": kind, "linked": False, "pair": True, "intervals": [[enc(lo), enc(hi)]], "seed": run.seed})
     run.map("interval", cases)
     monotonicity(run, "interval")
+    run.map("interval", pair_cases, part="interval-unlinked-pair")
     # combinations of two model weights (bounds on axis points so that the reference slice is unambiguous)
     wc = []
     items = [{"value": 3.0}, {"global_interval": [2.0, 4.0], "value": 0.25}, {"global_interval": [1.0, "inf"], "value": 0.5},
